@@ -56,6 +56,14 @@ class CallMixin(object):
                 qual = self.const_str(self.eval(st, e.args[0]))
                 expr = self.const_str(self.eval(st, e.args[1]))
                 return V(mkB(self.calls_satisfy(st, qual, expr, fr.contract)), parse_spec('bool'))
+            if n == 'all_distinct':
+                lv = self.eval(st, e.args[0])
+                r = Val.r(lv.t)
+                i, j = z3.Ints('qi qj')
+                elems = z3.Select(self.harr(st, '$ELEM'), r)
+                n_ = self.list_len(st, r)
+                body = z3.Implies(And(0 <= i, i < j, j < n_), z3.Select(elems, i) != z3.Select(elems, j))
+                return V(mkB(z3.ForAll([i, j], body)), parse_spec('bool'))
             if n == 'attr_of':
                 return self.glist_attr(st, self.eval(st, e.args[0]), self.eval(st, e.args[1]))
             if n == 'attr_count':
@@ -111,6 +119,12 @@ class CallMixin(object):
             return self.call_function(st, fv.func, [fv.selfv] + args, kwargs, line=line)
         if isinstance(fv, PyObj):
             o = fv.o
+            from .cruntime import CFunction
+            if isinstance(o, CFunction):
+                c = self.registry.get('c:' + o.name)
+                if c is None:
+                    raise EngineError('call to C function %s has no contract (line %d)' % (o.name, line))
+                return self.apply_contract(st, c, None, args, kwargs, line)
             if isinstance(o, types.FunctionType):
                 return self.call_function(st, o, args, kwargs, line=line)
             if isinstance(o, types.MethodType):
@@ -173,6 +187,7 @@ class CallMixin(object):
             raise EngineError('inline depth exceeded in %s' % name)
         fr = Frame(name, module, closure_env)
         fr.extra_globals = extra_globals
+        fr.c_mode = getattr(self, 'c_mode', False) and getattr(module, '__name__', '') == 'c_translation_unit'
         caller_vars = st.vars
         st.vars = env
         self.frames.append(fr)
@@ -227,7 +242,57 @@ class CallMixin(object):
         self.propagate(others)
         return res if res is not None else self.lift(None)
 
+    def call_cruntime(self, st, name, args, line):
+        from . import cruntime
+        if name == '__newcell':
+            r = self.new_ref(st, cruntime.Cell)
+            v = self.as_v(st, args[0]) if args else self.lift(0)
+            self.store(st, r, 'val', v.t)
+            return V(mkR(r), TypeSpec('obj', (cruntime.Cell,)))
+        if name == '__uninit':
+            return V(fresh('uninit'), None)
+        if name == '__truth':
+            v = args[0]
+            if isinstance(v, V):
+                h = v.hint
+                if h is not None and h.kind == 'bool' and not h.opt:
+                    return v
+                if h is not None and h.kind == 'int' and not h.opt:
+                    return V(mkB(Val.i(v.t) != 0), parse_spec('bool'))
+                if h is not None and h.kind in ('obj', 'list') :
+                    return V(mkB(Not(Val.is_N(v.t))), parse_spec('bool'))
+                t = v.t
+                return V(mkB(z3.If(Val.is_B(t), Val.b(t), z3.If(Val.is_I(t), Val.i(t) != 0, Not(Val.is_N(t))))), parse_spec('bool'))
+            return V(mkB(self.truthy(st, v)), parse_spec('bool'))
+        if name == '__cbool':
+            return V(mkI(z3.If(self.truthy(st, args[0]), 1, 0)), parse_spec('int'))
+        if name == '__cast':
+            v, tn = args
+            tname = self.const_str(tn)
+            spec = parse_spec(tname + '?')
+            self.trust('C casts between GIrNode structs follow the node type tag (assumed)')
+            if isinstance(v, V):
+                self.assume(st, spec.assumption(v.t))
+                return V(v.t, spec.with_opt(v.hint.opt if v.hint is not None and v.hint.kind == 'obj' else True))
+            return v
+        if name == '__align_mask':
+            x, a = args
+            xi, ai = Val.i(x.t), Val.i(a.t)
+            pow2 = Or(*[ai == k for k in (1, 2, 4, 8, 16, 32, 64)])
+            self.oblige(st, 'align.power_of_two@%d' % line, pow2, 'GI_ALIGN: the alignment is a power of two (<= 64)')
+            self.oblige(st, 'align.nonnegative@%d' % line, xi >= 0, 'GI_ALIGN: the rounded value is not negative')
+            return V(mkI(xi - (xi % ai)), parse_spec('int'))
+        if name == '__cdiv':
+            a, b = args
+            ai, bi = Val.i(a.t), Val.i(b.t)
+            self.raise_exit(st, ZeroDivisionError, bi == 0, line)
+            q = z3.If(ai >= 0, z3.If(bi > 0, ai / bi, -(ai / (-bi))), z3.If(bi > 0, -((-ai) / bi), (-ai) / (-bi)))
+            return V(mkI(q), parse_spec('int'))
+        raise EngineError('C runtime function %s' % name)
+
     def call_function(self, st, f, args, kwargs, inline=False, line=0):
+        if getattr(f, '__module__', '') == 'givc.cruntime':
+            return self.call_cruntime(st, f.__name__, args, line)
         f = inspect.unwrap(f) if not hasattr(f, '__wrapped__') or not getattr(f, '_givc_keep', False) else f
         q = qualname(f)
         mode = 'inline' if inline else self.registry.mode_for(q, self.cur_contract)
